@@ -28,7 +28,7 @@ G_PROPS = {
                 opts={"p_history": 0.35, "history_utils": True}),
     "C17": dict(oracles=["c17"], families=FAMILIES, modes=MODES, n_quick=6000, n_thorough=60000,
                 opts={"only_classified": "elitist.json", "stop_opts": True, "long_int_runs": 0.5}),
-    "C11": dict(oracles=["c11_pool", "c01", "c02", "c03", "c10"], families=CONT_FAMILIES, modes=POOLED,
+    "C11": dict(oracles=["c11_pool", "c01", "c02", "c03", "c10"], families=FAMILIES, modes=POOLED,
                 n_quick=6000, n_thorough=60000, opts={"p_no_faults": 0.25, "pool_heavy_bias": True, "p_line": 0.15}),
 }
 
@@ -100,6 +100,12 @@ def make_desc(job):
         # every k-th job of an optimizer takes the next boundary-parameter candidate in turn (full coverage of the
         # finite candidate set instead of random picks)
         o["extreme_index"] = job["opt_rank"] // o["extreme_every"]
+    if fam == "cont_multi" and H(job["seed"], "bigdim") % 4 == 0 and not o.get("no_big_dim"):
+        # size thresholds: a few runs of every optimizer on tasks with tens to hundreds of variables (short and small)
+        o["big_dim"] = r.choice([33, 64, 65, 100, 127, 128, 129, 130, 200, 257])
+        o["cycles"] = (1, 3)
+        o["pop_scales"] = (1,)
+        o["any_pop_p"] = 0.0
     desc = scenario.gen_scenario(job["seed"], opt, fam, mode, engine_g.make_config, tier=job["tier"], opts=o)
     if o.get("history_utils") and desc.get("history"):
         desc["history_utils"] = True
